@@ -1,5 +1,5 @@
 """C06 is assembled from the Conn part (ConnMux) and the Transport part (added with engine E5)."""
-from engines import conn
+from engines import conn, transport
 
 PROPS = {"C06": "model_checking"}
 
@@ -11,4 +11,10 @@ def run(ctx):
         keep.append("transport.go")
     ctx.vh_keep = keep
     cov = conn.run_part(ctx, "C06")
+    # concurrent RoundTrips on one Transport (cancellation, deadlines, connection drops, late answers on pooled connections)
+    t = transport.run_part(ctx, "C06")
+    cov["transport"] = {k: t.get(k) for k in t if k != "samples"}
+    cov["traces_validated_against_impl"] = (cov.get("traces_validated_against_impl") or 0) + (t.get("traces_validated_against_impl") or 0)
+    cov["states"] = (cov.get("states") or 0) + (t.get("states") or 0)
+    cov["transitions"] = (cov.get("transitions") or 0) + (t.get("transitions") or 0)
     return cov
